@@ -125,6 +125,8 @@ resource "aws_instance" "web" {
   instance_type = var.enabled ? "t2.micro" : "t3.large"
   monitoring    = !var.enabled
   secret        = "s-${self.ami}"
+  token         = "t-${local.prefix}"
+  passphrase    = "p"
   tags = {
     Name = format("%s-%d", local.prefix, count.index)
     Env  = local.meta.owner
@@ -397,7 +399,7 @@ const twoFilesB = `resource "aws_instance" "plain" {
     device_name = lower(var.shared)
   }
   ami           = var.shared
-  instance_type = "t2.micro"
+  instance_type = aws_instance.counted.instance_type
 }
 
 variable "shared" {
